@@ -28,7 +28,12 @@ def bounds(tier):
                 "nine": "values 1..5, exactly 9 items, k=4..5 for rnp/snp (smallest scope on which rnp's even-case defect showed)",
                 "ilp": "values 0..4, 1..5 items, 1..4 bins, 3 objectives + k-sums objectives",
                 "long-thin": "9..15 items over {1,2}, 9..12 over {1,2,3}, 9..11 over {0,1,5} and {2,3,7}; k in {2,3,4,5,7}; cg x 3 objectives x {default, fast bound off}; ckk/rnp (n<=12, k<=4), snp (n<=12, k<=3); optimum from the sum-vector DP",
-                "big": "values {0, 1, 2**24+1, 2**31+1, 2**32+3, 2**40+5}, 2..5 items, k=2..4: ckk/snp/rnp/dp (all objectives); cg 48 configurations k=2..3"}
+                "offset": "letters {b/2+7, b+1, b+5, b+6, 2b+1, 2b+8} for b in {1e5, 1e6, 2**24, 1e9}, 3..5 items, k=2..3: ckk/snp/rnp/dp (all objectives, both output families), cg x 3 objectives x {all switches on, all off}",
+                "spread (quick)": "5..6 items over fibonacci and powers of two, k=3..4",
+                "named": "values 0..5, 2..5 items, k=2..3, dict with integer names: all exact algorithms and all cg configurations",
+                "offset": "letters {b/2+7, b+1, b+5, b+6, 2b+1, 2b+8} for b in {1e5, 1e6, 2**24, 1e9}, 3..6 items, k=2..3: ckk/snp/rnp/dp (all objectives, both output families), cg x 3 objectives x {all switches on, all off}",
+            "named": "values 0..5, 2..5 items, k=2..3, dict with integer names: all exact algorithms and all cg configurations",
+            "big": "values {0, 1, 2**24+1, 2**31+1, 2**32+3, 2**40+5}, 2..5 items, k=2..4: ckk/snp/rnp/dp (all objectives); cg 48 configurations k=2..3"}
     return {"dense": "values 0..7, 1..8 items, 1..6 bins",
             "wide": "values 1..10 (7 items), fibonacci/near-equal/powers-of-two alphabets (6..8 items), k=2..5",
             "nine": "values 1..5, 9..10 items, k=4..5 for rnp/snp",
@@ -63,6 +68,18 @@ def tasks(tier):
     for ch in scopes.chunk_multisets(scopes.BIG_VALUES, 2, 5 if q else 6, 30):
         ts.append(("big-exact", ch, (2, 3, 4), tier))
         ts.append(("big-cg", ch, (2, 3), tier))
+    # large base + small offsets (a relative tolerance in a prune or an early stop would swallow the last few units)
+    for ch in spaces.chunked(scopes.offset_multisets(3, 5 if q else 6), 40):
+        ts.append(("offset-exact", ch, (2, 3), tier))
+        ts.append(("offset-cg", ch, (2, 3), tier))
+    # values spread over two orders of magnitude (few items, fine-grained sums)
+    for name in ("fib", "pow2"):
+        for ch in scopes.chunk_multisets(WIDE[name], 5, 6, 60):
+            ts.append((f"{name}q-exact", ch, (3, 4), tier))
+    # named items whose names are integers larger than, and anti-correlated with, the values
+    for ch in scopes.chunk_multisets(range(0, 6), 2, 5, 40):
+        ts.append(("named-cg", ch, (2, 3), tier))
+        ts.append(("named-exact", ch, (2, 3), tier))
     Vi, Ni, Ki = (4, 5, 4) if q else (5, 6, 4)
     for ch in scopes.chunk_multisets(range(0, Vi + 1), 1, Ni, 6 if q else 8):
         ts.append(("ilp", ch, tuple(range(1, Ki + 1)), tier))
@@ -80,6 +97,8 @@ def _judge(acc, case, spec, dp=False):
         acc.violation(algo, cfg_str(case), inp_str(case), "raises", "optimal sums", f"{obs[1]}: {obs[2]}", case)
         return
     sums = obs[1]
+    if sums is not None and case.get("out") == "PartitionAndSumsTuple":
+        sums = sums[0]
     if sums is None or len(sums) != case["k"] or sum(sums) != sum(case["items"]):
         acc.violation(algo, cfg_str(case), inp_str(case), "not_a_partition", f"{case['k']} sums totalling {sum(case['items'])}", sums, case)
         return
@@ -141,17 +160,21 @@ def run_task(task):
                 algos = []
                 if k <= 5: algos.append("ckk")
                 algos += ["snp", "rnp"]
+                fmt = "dict_int" if scope.startswith("named") else "list"
                 for a in algos:
-                    _judge(acc, {"algo": a, "items": list(ms), "k": k, "out": "Sums", "kw": {}}, "MinimizeDifference")
+                    _judge(acc, {"algo": a, "items": list(ms), "k": k, "out": "Sums", "kw": {}, "fmt": fmt}, "MinimizeDifference")
                 if k ** n <= (4100 if tier == "quick" else 20000):
                     for spec in scopes.all_objectives(k):
-                        _judge(acc, {"algo": "dp", "items": list(ms), "k": k, "out": "Sums", "kw": {"objective": spec}}, spec)
+                        _judge(acc, {"algo": "dp", "items": list(ms), "k": k, "out": "Sums", "kw": {"objective": spec}, "fmt": fmt}, spec)
+                        if scope.split("-")[0] in ("fibq", "pow2q", "offset"):    # dp has a separate code path per output family
+                            _judge(acc, {"algo": "dp", "items": list(ms), "k": k, "out": "PartitionAndSumsTuple", "kw": {"objective": spec}}, spec)
                 if (scope.startswith("wide") and tier != "quick") or scope.split("-")[0] in ("fib", "near", "pow2"):
                     for spec in scopes.CG_OBJECTIVES:
                         _judge(acc, {"algo": "cg", "items": list(ms), "k": k, "out": "Sums", "kw": {"objective": spec}}, spec)
             elif kind == "cg":
-                for kw in scopes.cg_configs(all_switches=True):
-                    _judge(acc, {"algo": "cg", "items": list(ms), "k": k, "out": "Sums", "kw": kw}, kw["objective"])
+                fmt = "dict_int" if scope.startswith("named") else "list"
+                for kw in scopes.cg_configs(all_switches=not scope.startswith("offset")):
+                    _judge(acc, {"algo": "cg", "items": list(ms), "k": k, "out": "Sums", "kw": kw, "fmt": fmt}, kw["objective"])
             else:  # ilp
                 for spec in scopes.all_objectives(k):
                     _judge(acc, {"algo": "ilp", "items": list(ms), "k": k, "out": "Sums", "kw": {"objective": spec}}, spec)
